@@ -883,7 +883,7 @@ class Gen:
             return None
         v = self.vals[i]
         size = v.a.size
-        order = self.choice(["C", "C", "F"])
+        order = self.choice(["C", "C", "C", "F", "F", "c", "f"])
         # enumerate a few factorisations
         if size == 0:
             nd = self.integers(1, 3)
